@@ -87,6 +87,8 @@ def c08_file(draw):
         # a CDecay for a name that has a Decay block of its own: ignored (with a warning), whatever the switch says
         stmts.append({"k": "cdecay", "x": draw(st.sampled_from(owners))})
     if draw(st.booleans()):
+        stmts.append(draw(G.inert_statement(stable, kinds=("particle",))))  # nested values behind get_particle_property_definitions()
+    if draw(st.booleans()):
         stmts.append(draw(G.inert_statement(stable, kinds=("pythia", "jetset", "ls", "lspw", "photos", "particle"))))
     stmts = list(draw(st.permutations(stmts)))
     f = {"stmts": stmts, "layout": [], "crlf": False, "end": False}
